@@ -76,12 +76,13 @@ Proof. intros c cl e H. unfold store, fw_raise. destruct cl; [rewrite H|]; refle
 Lemma store_not_none : forall c cl e, store c cl e <> None.
 Proof. intros c cl e. unfold store. destruct cl; [destruct (c_first_wins c)|]; discriminate. Qed.
 
-Ltac wfields := cbn [cell wslot woken dprog parked handled streams trace sprog sacc] in *.
+Ltac wfields := cbn [cell wslot woken gen dprog parked handled streams trace sprog sacc] in *.
 
 (* all the ways a step can go, with every branch of the step function resolved *)
 Ltac step_cases c w a :=
-  destruct a as [xcalls xpend| |xi xe|xi];
+  destruct a as [xcalls xpend|xce0| |xi xe|xi];
   [ unfold step; destruct (dprog w) as [|xi0 xr0] eqn:Edp
+  | unfold step; destruct (dprog w) as [|xi0 xr0] eqn:Edp
   | unfold step, dstep; destruct (dprog w) as [|[| | |xn|xe0|xe0|xe0|xp] xrest] eqn:Edp;
     [ | destruct (handled w) as [xce|] eqn:Ehd | | destruct (cell w) as [xe1|] eqn:Ecl | | |
       destruct (close_code c xe0) as [xk|] eqn:Ecc | | destruct xp ]
@@ -100,12 +101,13 @@ Proof.
 Qed.
 
 Ltac destruct_world w :=
-  destruct w as [cl ws wk dp pk hd st tr]; wfields.
+  destruct w as [cl ws wk gn dp pk hd st tr]; wfields.
 
 (* same case analysis once the world has been split into its fields (named as in destruct_world) *)
 Ltac step_cases2 c a cl dp hd st :=
-  destruct a as [xcalls xpend| |xi xe|xi]; unfold step, dstep, sstep; wfields;
+  destruct a as [xcalls xpend|xce0| |xi xe|xi]; unfold step, dstep, sstep; wfields;
   [ destruct dp as [|xi0 xr0]
+  | destruct dp as [|xi0 xr0]
   | destruct dp as [|[| | |xn|xe0|xe0|xe0|xp] xrest];
     [ | destruct hd as [xce|] | | destruct cl as [xe1|] | | |
       destruct (close_code c xe0) as [xk|] eqn:Ecc | | destruct xp ]
@@ -154,6 +156,10 @@ Proof.
     + left. apply plain_poll_prog. exact Hs.
     + intros _. right. unfold poll_prog. rewrite Hpoll. cbn. eexists. reflexivity.
     + rewrite Hcl. unfold poll_prog. rewrite Hpoll. cbn. reflexivity.
+  - start.
+  - (* ACall, idle *) unfold call_prog. rewrite Hhan. cbn [upto_set map hop]. start.
+    + left. repeat constructor.
+    + intros _. right. eexists. reflexivity.
   - start.
   - start.
   - (* memo, handled *) start.
@@ -477,7 +483,7 @@ Record inv2 (w : world) : Prop := {
   j_streams : forall s, In s (streams w) ->
               wake_follows_store (sprog s) = true /\ (stored (sprog s) = true -> cell w <> None);
   j_slot : (dprog w = [] /\ parked w = true) \/ need_slot (dprog w) = true ->
-           wslot w = true \/ woken w = true;
+           wslot w = Some (gen w) \/ woken w = true;
   j_wake : cell w <> None ->
            (dprog w = [] /\ parked w = true) \/ exposed_prog (dprog w) = true ->
            woken w = true \/ exists s, In s (streams w) /\ has_wake (sprog s) = true }.
@@ -529,6 +535,12 @@ Proof.
     + intros _. reflexivity.
     + unfold poll_prog. rewrite Hpoll. cbn. intros [[H _]|H]; discriminate.
     + unfold poll_prog. rewrite Hpoll. cbn. intros _ [[H _]|H]; discriminate.
+  - start2.
+  - (* ACall *) unfold call_prog. rewrite Hhan. cbn [upto_set map hop]. start2.
+    + cbn. repeat split; discriminate.
+    + intros _. reflexivity.
+    + cbn. intros [[H _]|H]; discriminate.
+    + cbn. intros _ [[H _]|H]; discriminate.
   - start2.
   - start2.
   - (* memo, handled: the poll returns the error *) start2.
@@ -623,13 +635,13 @@ Proof.
     start2.
     + intros s Hs0. apply upd_in in Hs0. destruct Hs0 as [E|Hs0]; [|apply Hst; exact Hs0].
       subst s. wfields. split; [exact Hm1|]. intros _. apply Hm2. reflexivity.
-    + intros Ha. right. destruct (Hslot Ha) as [H|H]; rewrite H; [reflexivity | destruct ws; reflexivity].
+    + intros Ha. right. destruct (Hslot Ha) as [H|H]; rewrite H;
+        [rewrite Nat.eqb_refl; reflexivity | destruct ws as [g|]; [destruct (Nat.eqb g gn)|]; reflexivity].
     + intros _ Ha. left.
-      assert (Hb : ([] = dp /\ pk = true \/ need_slot dp = true) -> ws = true \/ wk = true).
-      { intros [[E H]|H]; apply Hslot; [left; split; [symmetry; exact E | exact H] | right; exact H]. }
-      assert (Hc : ws = true \/ wk = true).
+      assert (Hc : ws = Some gn \/ wk = true).
       { destruct Ha as [[E H]|H]; [apply Hslot; left; auto|]. apply Hslot. right. apply wf_head; assumption. }
-      destruct Hc as [H|H]; rewrite H; [reflexivity | destruct ws; reflexivity].
+      destruct Hc as [H|H]; rewrite H;
+        [rewrite Nat.eqb_refl; reflexivity | destruct ws as [g|]; [destruct (Nat.eqb g gn)|]; reflexivity].
   - (* S_point *)
     assert (Hmine := Hst _ (nth_error_In _ _ Enth)). wfields. destruct Hmine as [Hm1 Hm2].
     start2.
@@ -665,11 +677,12 @@ Proof.
   intros c k w Hl Hr. induction Hr as [|w a Hr IH]; [apply inv2_init | apply inv2_step with (c := c); assumption].
 Qed.
 
-(* T2a: a parked driver is never left without a wake-up once the cell is set: either its task has
-   been woken, or its waker is registered and a stream task is about to call wake() *)
+(* T2a: a parked driver is never left without a wake-up once the cell is set: either the waker of its
+   last poll has been woken, or THAT waker (not one of an earlier poll) is registered and a stream task is
+   about to call wake() *)
 Lemma no_lost_wakeup : forall c k w, liveness_cfg c -> reachable c k w ->
   cell w <> None -> dprog w = [] -> parked w = true ->
-  woken w = true \/ (wslot w = true /\ wake_coming w).
+  woken w = true \/ (wslot w = Some (gen w) /\ wake_coming w).
 Proof.
   intros c k w Hl Hr Hc Hd Hp. pose proof (inv2_reachable c k w Hl Hr) as Hi.
   assert (Ha : dprog w = [] /\ parked w = true) by auto.
@@ -701,6 +714,7 @@ Proof.
   destruct_world w.
   step_cases2 c a cl dp hd st; try (repeat split; solve [assumption | reflexivity | apply store_not_none]).
   - (* ABegin *) repeat split; try assumption. unfold poll_prog. rewrite Hpoll. reflexivity.
+  - (* ACall *) unfold call_prog. rewrite Hhan. repeat split; try assumption; reflexivity.
   - (* check hit *) rewrite Hhit. repeat split; try assumption; reflexivity.
   - (* check none *) contradiction Hc. reflexivity.
   - (* set *) rewrite Hhan. repeat split; try reflexivity. apply store_not_none.
@@ -757,6 +771,28 @@ Proof.
   - destruct (Hh ce eq_refl) as [e1 [Hc1 Hce]]. inversion Hc1; subst e1. rewrite Hconv in Hce. subst ce.
     exists 1%nat. cbn. repeat split; try reflexivity. apply in_or_app. right. left. reflexivity.
   - exists 7%nat. cbn. rewrite Hconv. repeat split; try reflexivity. apply in_or_app. right. left. reflexivity.
+Qed.
+
+(* a driver call that is not a poll (shutdown, ...) and fails in the transport after the cell was set
+   returns the first error, not the one it just met *)
+Lemma failed_call_reports : forall c k w e e', liveness_cfg c -> reachable c k w ->
+  cell w = Some e -> dprog w = [] ->
+  exists n, let w' := run c (ACall e' :: repeat AStep n) w in
+    dprog w' = [] /\ cell w' = Some e /\ handled w' = Some (spec_report e) /\
+    last_dev (trace w') = Some (EReport HDriver (spec_report e)).
+Proof.
+  intros c k w e e' Hl Hr Hc Hd.
+  pose proof (lc_safety c Hl) as Hs.
+  pose proof (inv1_reachable c k w Hs Hr) as Hi.
+  pose proof (convert_is_spec c e (sc_convert c Hs)) as Hconv.
+  pose proof (i_handled c w Hi) as Hh.
+  rewrite (liveness_cfg_eq c Hl) in *. clear Hi Hr Hs Hl.
+  destruct_world w. subst cl dp.
+  destruct hd as [ce|].
+  - destruct (Hh ce eq_refl) as [e1 [Hc1 Hce]]. inversion Hc1; subst e1. rewrite Hconv in Hce. subst ce.
+    exists 1%nat. cbn. repeat split; reflexivity.
+  - exists 4%nat. cbn. rewrite Hconv.
+    destruct (first_arm std_close e) as [[|k0]|]; [destruct e| |]; repeat split; reflexivity.
 Qed.
 
 (* ------------------------------------------------------------------------------------------ *)
@@ -837,20 +873,33 @@ Proof.
   destruct (s_idle w i); [exact Hr|]. apply IH. apply s_turn_reach. exact Hr.
 Qed.
 
-Lemma turn_reach : forall c k p1 errs r t, reachable c k (rw r) -> reachable c k (rw (turn c p1 errs r t)).
+Lemma d_begin_if_reach : forall c k np p1 r, reachable c k (rw r) -> reachable c k (rw (d_begin_if c np p1 r)).
 Proof.
-  intros c k p1 errs r t Hr. unfold turn. destruct t as [|i].
-  - destruct (dstarted r); cbn [rw]; apply d_turn_reach; [|constructor]; exact Hr.
+  intros c k np p1 r Hr. unfold d_begin_if. destruct (d_idle (rw r)); [|exact Hr].
+  destruct (d_more np r); [|exact Hr]. cbn [rw]. constructor. exact Hr.
+Qed.
+Lemma d_turn_r_reach : forall c k r, reachable c k (rw r) -> reachable c k (rw (d_turn_r c r)).
+Proof. intros c k r Hr. unfold d_turn_r. cbn [rw]. apply d_turn_reach. exact Hr. Qed.
+
+Lemma turn_reach : forall c k np p1 errs r t, reachable c k (rw r) -> reachable c k (rw (turn c np p1 errs r t)).
+Proof.
+  intros c k np p1 errs r t Hr. unfold turn. destruct t as [|i].
+  - pose proof (d_turn_r_reach c k _ (d_begin_if_reach c k np p1 r Hr)) as H1.
+    destruct (d_idle (rw (d_turn_r c (d_begin_if c np p1 r)))); [|exact H1].
+    apply d_turn_r_reach. apply d_begin_if_reach. exact H1.
   - destruct (nth_error (sstarted r) i) as [[|]|]; try exact Hr.
     + cbn [rw]. apply s_turn_reach. exact Hr.
     + destruct (nth_error errs i); [|exact Hr]. cbn [rw]. apply s_turn_reach. constructor. exact Hr.
 Qed.
 
-Lemma complete_reach : forall c k p1 errs r t, reachable c k (rw r) -> reachable c k (rw (complete c p1 errs r t)).
+Lemma turns_reach : forall n c k np p1 errs r t, reachable c k (rw r) -> reachable c k (rw (turns n c np p1 errs r t)).
 Proof.
-  intros c k p1 errs r t Hr. unfold complete. pose proof (turn_reach c k p1 errs r t Hr) as H.
-  destruct t; cbn [rw]; [apply d_finish_reach | apply s_finish_reach]; exact H.
+  induction n as [|n IH]; intros c k np p1 errs r t Hr; cbn [turns]; [exact Hr|].
+  apply IH. apply turn_reach. exact Hr.
 Qed.
+
+Lemma complete_reach : forall c k np p1 errs r t, reachable c k (rw r) -> reachable c k (rw (complete c np p1 errs r t)).
+Proof. intros. unfold complete. apply turns_reach. assumption. Qed.
 
 Lemma fold_reach : forall c k (f : rstate -> nat -> rstate) l r,
   (forall r t, reachable c k (rw r) -> reachable c k (rw (f r t))) ->
@@ -861,35 +910,38 @@ Qed.
 
 Lemma d_poll_reach : forall c k p w, reachable c k w -> reachable c k (d_poll c p w).
 Proof. intros c k p w Hr. unfold d_poll. apply d_finish_reach. constructor. exact Hr. Qed.
+Lemma d_call_reach : forall c k e w, reachable c k w -> reachable c k (d_call c e w).
+Proof. intros c k e w Hr. unfold d_call. apply d_finish_reach. constructor. exact Hr. Qed.
 
 Lemma raise_all_reach : forall c k es w i, reachable c k w -> reachable c k (fst (raise_all c w i es)).
 Proof.
-  intros c k es. induction es as [|e es IH]; intros w i Hr; cbn [raise_all]; [exact Hr|].
-  specialize (IH (s_raise c w i e) (S i)).
-  destruct (raise_all c (s_raise c w i e) (S i) es) as [w2 l]. cbn [fst] in *.
-  apply IH. unfold s_raise. apply s_finish_reach. constructor. exact Hr.
+  intros c k es. induction es as [|[e|] es IH]; intros w i Hr; cbn [raise_all]; [exact Hr| |].
+  - specialize (IH (s_raise c w i e) (S i)).
+    destruct (raise_all c (s_raise c w i e) (S i) es) as [w2 l]. cbn [fst] in *.
+    apply IH. unfold s_raise. apply s_finish_reach. constructor. exact Hr.
+  - specialize (IH w (S i) Hr). destruct (raise_all c w (S i) es) as [w2 l]. exact IH.
 Qed.
 
-Lemma run_case_reachable : forall c k setup p1 errs sched p2 errs2 errs3,
-  reachable c k (r_final (run_case c k setup p1 errs sched p2 errs2 errs3)).
+Lemma run_case_reachable : forall c k setup np p1 errs sched p2 errs2 errs3 e4,
+  reachable c k (r_final (run_case c k setup np p1 errs sched p2 errs2 errs3 e4)).
 Proof.
-  intros c k setup p1 errs sched p2 errs2 errs3. unfold run_case.
+  intros c k setup np p1 errs sched p2 errs2 errs3 e4. unfold run_case.
   set (w0 := match setup with Some p => d_poll c p (init k) | None => init k end).
   assert (H0 : reachable c k w0).
   { unfold w0. destruct setup; [apply d_poll_reach|]; constructor. }
-  set (r0 := {| rw := w0; dstarted := false; sstarted := repeat false k |}).
-  set (r1 := fold_left (turn c p1 errs) sched r0).
+  set (r0 := {| rw := w0; dpolls := O; sstarted := repeat false k |}).
+  set (r1 := fold_left (turn c np p1 errs) sched r0).
   assert (H1 : reachable c k (rw r1)) by (apply fold_reach; [intros; apply turn_reach; assumption | exact H0]).
-  set (r2 := fold_left (complete c p1 errs) (map S (seq0 k)) r1).
+  set (r2 := fold_left (complete c np p1 errs) (map S (seq0 k)) r1).
   assert (H2 : reachable c k (rw r2)) by (apply fold_reach; [intros; apply complete_reach; assumption | exact H1]).
-  set (r3 := complete c p1 errs r2 O).
+  set (r3 := complete c np p1 errs r2 O).
   assert (H3 : reachable c k (rw r3)) by (apply complete_reach; exact H2).
   pose proof (d_poll_reach c k p2 _ H3) as H4.
   pose proof (raise_all_reach c k errs2 _ O H4) as H5.
   destruct (raise_all c (d_poll c p2 (rw r3)) 0 errs2) as [w3a s2]. cbn [fst] in H5.
   pose proof (raise_all_reach c k errs3 _ O H5) as H6.
   destruct (raise_all c w3a 0 errs3) as [w3 s3]. cbn [fst] in H6.
-  cbn [r_final]. apply d_poll_reach. exact H6.
+  cbn [r_final]. apply d_poll_reach. destruct e4; [apply d_call_reach|]; exact H6.
 Qed.
 
 (* ------------------------------------------------------------------------------------------ *)
@@ -899,6 +951,12 @@ Lemma gen_facts_ok : liveness_cfg gen_cfg.
 Proof.
   constructor; [constructor|..]; try reflexivity. eexists. reflexivity.
 Qed.
+(* the stream side, as read from the source: every arm of the frame-error dispatcher goes through one of the two
+   CloseStream helpers, both of which are `set_conn_error_and_wake; report convert(returned value)` (= raise_prog) *)
+Lemma gen_stream_facts_ok :
+  frame_error_arms = [(FsQuic, ViaQuicHelper); (FsProto, ViaInternalHelper); (FsUnexpectedEnd, ViaInternalHelperCode H3_FRAME_ERROR)] /\
+  stream_helpers_raise_and_wake = true /\ cell_and_waker_sites_closed = true /\ handles_share_connection_state = true.
+Proof. repeat split; reflexivity. Qed.
 Lemma gen_safety_ok : safety_cfg gen_cfg.
 Proof. exact (lc_safety _ gen_facts_ok). Qed.
 
